@@ -600,8 +600,12 @@ func racePass(res *explore.Result, tier string) {
 	}
 	for _, line := range strings.Split(stdout.String(), "\n") {
 		if strings.HasPrefix(line, "DIFFERS ") {
+			// a sample of real-time interleavings is not reproducible on demand: recorded in the evidence (and a
+			// strong hint), but the verdict is left to the exhaustive exploration and to the race detector
 			res.Add("free_running_differences", 1)
-			res.Violate("free-running-differs-from-solo", "free-running concurrent use: "+line[8:], c14Case{Scenario: -1, Name: "race pass", Race: "DIFFERS"})
+			if len(res.Notes) < 30 {
+				res.Notes = append(res.Notes, "free-running concurrent use differs from the solo run: "+line[8:])
+			}
 		}
 	}
 	if !ran {
@@ -768,8 +772,15 @@ func c14Replay(raw json.RawMessage) *explore.Result {
 	}
 	if c.Scenario < 0 {
 		// a race report: re-run the race pass and look for a race with the same first library frame
-		tmp := explore.NewResult()
-		racePass(tmp, "quick")
+		// the free-running pass is a sample of real-time interleavings: give it a few runs to show the problem again
+		var tmp *explore.Result
+		for try := 0; try < 4; try++ {
+			tmp = explore.NewResult()
+			racePass(tmp, "quick")
+			if len(tmp.Violations) > 0 {
+				break
+			}
+		}
 		// which of several racing accesses the detector reports first varies between runs: the case
 		// reproduces when the race pass reports a data race with the same first library frame, or, failing
 		// that, any data race inside the library
